@@ -17,6 +17,7 @@ from .instr import (
     decode,
     Instruction,
 )
+from .instr.opcodes import InvalidInstruction
 from binja_test_mocks.mock_llil import (
     MockLowLevelILFunction,
     MockLLIL,
@@ -458,7 +459,12 @@ class Emulator:
             decoder = CachedFetchDecoder(fecher, ADDRESS_SPACE_SIZE)
         else:
             decoder = FetchDecoder(fecher, ADDRESS_SPACE_SIZE)
-        instr = decode(decoder, address, OPCODES)  # type: ignore
+        try:
+            instr = decode(decoder, address, OPCODES)  # type: ignore
+        except (AssertionError, InvalidInstruction):
+            # Same convention as the Binary Ninja callbacks in arch.py: an operand byte
+            # that no addressing mode accepts makes the bytes "not an instruction".
+            instr = None
         if instr is None:
             opcode = self.memory.read_byte(address) & 0xFF
             instr = _FallbackInstruction(opcode)
